@@ -408,7 +408,28 @@ func c01G2() []*C01Case {
 
 // ---- G3: byte strings and deep nests ------------------------------------------------------------------
 
+// c01Hostile: the fixed hostile constants plus "the first thing a process does": a value that
+// comes into being in one particular way (auto-created by an index or member store on a name
+// never assigned, a literal, a document value, a method result) and is used at once through
+// every method and operator form, with nothing before it in the run (lazily built state
+// such as method tables is first touched on exactly this path). Short programs: each goes
+// through the binary, i.e. a fresh process.
 func c01Hostile() []string {
+	out := c01HostileFixed()
+	makers := []string{"a[0] = 1", "a[2] = 1", "a.k = 1", "a.b[0] = 1 ; a = a.b", "a.b.c = 1 ; a = a.b", "a = []", "a = {}", "a = \"s\"", "a = 2.5", "a = \"x,y\".split(\",\")", "a = [2, 1].sort()",
+		"a = {k: 1}.pluck(\"k\")", "a = $", "a = json([1])", "a = num(\"3\")", "a = /x/", "a = null", "a = true"}
+	uses := []string{"print a.length()", "a.push(2) ; print a", "print a.pop()", "print a.popfirst()", "print a.contains(1)", "print a.sort()", "print a.pluck(\"k\")", "print a.split(\"\")",
+		"print a.upper(), a.lower()", "print a.floor(), a.ceil(), a.round()", "print a.nosuch", "print a.length", "print a[0], a[-1], a.k", "for (v, i in a) { print v, i }", "print json(a)", "print a + 1, a == a",
+		"printf(\"%v|%s\\n\", a, a)", "print match (a) { [x] => x, y => y }"}
+	for _, m := range makers {
+		for _, u := range uses {
+			out = append(out, "BEGIN { "+m+" ; "+u+" }")
+		}
+	}
+	return out
+}
+
+func c01HostileFixed() []string {
 	rep := strings.Repeat
 	return []string{
 		rep("(", 20000), rep("[", 20000), rep("{", 20000), "BEGIN { x = " + rep("!", 20000) + "1 }", "BEGIN { x = " + rep("-", 20000) + "1 }",
